@@ -75,12 +75,15 @@ func (g *Gen) Scenarios(p *ps.Program) []*ps.Scenario {
 		if sc.Cancel == "" {
 			sc.Cancel = "none"
 		}
-		slow := sc.PV == -1
+		slow, late := sc.PV == -1, sc.PV == -2
 		sc.Conc = g.scenConc(p)
 		sc.PV = g.R.Intn(4)
 		if slow {
 			sc.Conc = p.Conc
 			sc.PV += 1000
+		}
+		if late {
+			sc.PV += 2000
 		}
 		if sc.Fn == nil {
 			sc.Fn = map[int]string{}
@@ -315,6 +318,31 @@ func (g *Gen) parScenarios(p *ps.Program) []*ps.Scenario {
 				sc := base()
 				sc.MpEnd[m.M] = "err"
 				out = append(out, sc)
+			}
+		}
+	}
+	// late failures (pv in [2000,3000)): a task fails a few milliseconds into the run while the End
+	// function of a collection is already running and panics later still — after a fail-fast
+	// directive has returned. Nothing a straggler does may touch the caller's variables.
+	if p.COE == "" && len(p.PTasks) > 0 {
+		for _, s := range p.Slices {
+			if s.End {
+				sc := base()
+				sc.Fn[p.PTasks[0].K] = failKind(p.PTasks[0].Err)
+				sc.SlEnd[s.S] = "panic"
+				sc.PV = -2
+				out = append(out, sc)
+				break
+			}
+		}
+		for _, m := range p.Maps {
+			if m.End {
+				sc := base()
+				sc.Fn[p.PTasks[0].K] = failKind(p.PTasks[0].Err)
+				sc.MpEnd[m.M] = "panic"
+				sc.PV = -2
+				out = append(out, sc)
+				break
 			}
 		}
 	}
